@@ -7,36 +7,56 @@ GENERATED = []
 SOURCES = ["src/allmydata/immutable/downloader/fetcher.py", "src/allmydata/immutable/downloader/finder.py",
            "src/allmydata/immutable/downloader/share.py", "src/allmydata/immutable/downloader/node.py"]
 DESIGN_REF = "DESIGN.md §2 C03/C46, Appendix A.4"
-TECHNIQUE = ("Lean 4 theorems over an executable event-system model of SegmentFetcher (state + events add_shares / "
-             "no_more_shares / per-share OVERDUE|COMPLETE|CORRUPT|DEAD|BADSEGNUM / loop turns; _do_loop and "
-             "_find_and_use_share transcribed with the diversity limit): for every fair complete event sequence, >= k "
-             "distinct good share numbers => process_blocks with >= k validated blocks, otherwise fetch_failed "
-             "(NotEnoughShares|NoShares) and never process_blocks; differential correspondence of seeded event scripts "
-             "against the real SegmentFetcher driven by fake Share objects (internal state after every event); end-to-end "
-             "fault-schedule runs on an in-process grid with the property monitor")
-LEVEL_TEXT = ("Both halves of the availability statement are proved in Lean for the fetcher event system, for all placements "
-              "(several shares per server), all sets of bad / late shares and all interleavings allowed by `Fair`; the model is "
-              "tied to fetcher.py by comparing the complete internal state after every event of seeded scripts (valid and "
-              "malformed); the rest of the read path (ShareFinder, Share, Segmentation, storage protocol) is exercised "
-              "end-to-end with fault schedules and monitored against the statement, not proved.")
-LEVEL_NOTE = ("Lean kernel + standard axioms; schedules are those of the model's event system (the real reactor / foolscap "
-              "machinery is tied only by seeded runs); ShareFinder and Share are environment assumptions (`Fair`), sampled "
-              "end-to-end; liveness is 'no stuck quiescent state', not a time bound.")
-RULE = ("(1) seeded event scripts (k 1..4, 0..10 shares over 1..6 share numbers and 1..5 servers, dispositions good/corrupt/"
-        "dead/late, batches, one third with malformed events) run on the real SegmentFetcher with fake shares and on the "
-        "driver: a case is one script, non-trivial = at least one get_block was started; (2) end-to-end scenarios (k-of-n "
-        "upload to 1..7 servers, extra copies, deleted / byte-flipped shares per region, per-server plans ok/late/error/"
-        "error-on-nth/disconnect-on-nth/hang-then-drop/late-DYHB, sequential and concurrent ranged reads on one node, "
-        "random/fifo/lifo delivery): a case is one read, non-trivial = at least one fault is present")
-TRUSTED = ["lean/Tahoe/Immutable/Fetch.lean is a hand transcription of fetcher.py (sets as lists, dicts as association "
-           "lists, the while loop on fuel with a proof that fuel suffices, stop() deleting attributes modelled as emptying)",
-           "harness/grid.py and the FaultWrapper in harness/props/_fetch_common.py (delays on the virtual clock, hung calls "
-           "failed on disconnect) stand in for foolscap connections",
-           "`Fair` (FetchEnv.lean): ShareFinder reports every share once then no_more_shares; a started Share sends exactly "
-           "one terminal event, COMPLETE iff it is intact on an answering server — assumed of finder.py / share.py, "
-           "sampled by the end-to-end runs"]
+TECHNIQUE = ("Lean 4 theorems (9) over executable event-system models of SegmentFetcher (fetcher.py: add_shares / no_more_shares / "
+             "per-share OVERDUE|COMPLETE|CORRUPT|DEAD|BADSEGNUM / loop turns; _do_loop and _find_and_use_share transcribed with the "
+             "diversity limit), of ShareFinder (finder.py: hungry / loop / answers / failures / overdue timers, bounded "
+             "parallelism) and of the composed system Sys (reads = Segmentation instances routed through the DownloadNode queue): "
+             "enough_good_shares_succeed, too_few_fail (both halves of the statement for every fair event sequence of a fetcher), "
+             "genuine_segment_is_accepted, composed_read_delivers_exact_range, composed_step_writes_contiguous (a read delivers "
+             "exactly its range whatever the segment-size guess), got_shares_always_recorded, "
+             "new_fetcher_starts_with_known_live_shares (shares announced at any time reach every later fetcher), "
+             "finder_answers_every_hungry, finder_asks_each_server_once; differential correspondence of seeded event scripts "
+             "against the real SegmentFetcher (fake shares) and the real ShareFinder (fake servers / timers), internal state after "
+             "every event; a fixed seed-independent corpus (one history per seeded change and per repaired defect) and random "
+             "end-to-end fault-schedule families on an in-process grid with the statement monitor")
+LEVEL_TEXT = ("Proved in Lean for all histories: both halves of the availability statement for the segment fetcher (any placement, "
+              "several shares per server, any set of bad / late shares, any interleaving allowed by `Fair`); the finder's contract "
+              "(a hungry ShareFinder with no query in flight has delivered shares or announced no_more_shares, each server asked "
+              "once in order); shares announced while no fetcher runs are kept for every later fetcher; in the composed system "
+              "(reads + node + its fetchers) a successful read has delivered exactly [offset, offset+size) in order, whatever the "
+              "segment-size guess.  Tied to fetcher.py and finder.py by comparing the complete internal state after every event of "
+              "seeded scripts (valid and malformed).  Not proved, monitored end-to-end against the statement: that share.py turns "
+              "server faults into exactly one terminal event per get_block (the Share state machine is not modelled), and "
+              "'terminates WITH SUCCESS when >= k good shares' inside the composed system (termination itself is C46's "
+              "every_read_terminates; success needs the C03 invariant threaded through the node's per-segment fetchers — "
+              "read_succeeds_partial in the Props header).")
+LEVEL_NOTE = ("Lean kernel + standard axioms; schedules are those of the models' event systems (the real reactor / foolscap "
+              "machinery is tied only by seeded runs); the finder model is proved separately and not yet composed with Sys in one "
+              "transition system; Share (share.py) remains an environment assumption (`Fair`), sampled end-to-end; liveness is 'no "
+              "stuck quiescent state', not a time bound.  Defects found by this check and repaired in /repo: 4f1ea1b (get_block on "
+              "a dead share never answered), b6b8db9 (wrong segment-size guess made the downloader abandon good shares).")
+RULE = ("fixed corpus first (VERIF_CORPUS_ONLY=1 runs only it): fetcher scripts, finder scripts and end-to-end scenarios, one "
+        "per seeded change C03-a..e / C46-a..e and per repaired defect; then random families: (1) seeded fetcher scripts (k 1..4, "
+        "0..10 shares over 1..6 share numbers and 1..5 servers, dispositions good/corrupt/dead/late, batches, one third with "
+        "malformed events) on the real SegmentFetcher and the driver — a case is one script, non-trivial = a get_block was "
+        "started; (2) ShareFinder scripts (0..8 servers, parallelism 1..10, answers with/without shares, failures, overdue "
+        "timers, repeated hungry, stop) on the real class and the driver; (3) end-to-end scenarios (k-of-n upload to 1..7 "
+        "servers, extra copies, deleted / byte-flipped / header-truncated shares per region, targeted damage of one hash-chain / "
+        "ciphertext-tree / block-tree node, per-server plans ok/late/error/error-on-nth/one-failing-read/disconnect/"
+        "hang-then-drop/late-DYHB, wrong segment-size guesses on fresh nodes incl. one real >1 MiB-segment file in thorough, "
+        "late failing reads after a block completed, get_buckets answers held until the node is idle, sequential and concurrent "
+        "ranged reads on one node, random/fifo/lifo delivery): a case is one read, non-trivial = at least one fault is present")
+TRUSTED = ["lean/Tahoe/Immutable/Fetch.lean, Finder.lean, Segmentation.lean are hand transcriptions of fetcher.py / node.py, "
+           "finder.py, segmentation.py (sets as lists, dicts as association lists, the while loop on fuel with a proof that fuel "
+           "suffices, stop() deleting attributes modelled as emptying, iterator-exhausted as a flag)",
+           "harness/grid.py and the FaultWrapper / wait_all in harness/props/_fetch_common.py (delays on the virtual clock, held "
+           "and hung calls, forced time advance after a busy stretch) stand in for foolscap connections",
+           "`Fair` (FetchEnv.lean), as far as it is still assumed: a started Share sends exactly one terminal event, COMPLETE iff it "
+           "is intact on an answering server (share.py, not modelled); the finder's part of `Fair` is proved for the finder model "
+           "(finder_answers_every_hungry) but the two systems are composed by hand"]
 ASSUMPTIONS = ["a server that never answers a block read and never disconnects is outside the statement (the real Share never "
-               "emits OVERDUE, so the fetcher waits for it); scenarios use finite delays and hang-then-disconnect only",
+               "emits OVERDUE, so the fetcher waits for it); scenarios use finite delays, held answers and hang-then-disconnect",
+               "max_outstanding_requests > 0 for the finder theorem (with 0 the finder never asks anybody: shown by an example)",
                "oracle of the end-to-end monitor: good = byte-identical share file on a server whose plan is ok/late; "
                "possible = share file present on a server that does not fail every call; good >= k => exact bytes, "
                "possible < k => NotEnoughShares/NoShares for reads of size > 0, otherwise either",
